@@ -31,6 +31,8 @@ const (
 	deferMs        = 30000 // REQ / DPUB delay when not immediate
 	scanShort      = 20 * time.Second
 	scanMid        = 90 * time.Second // between the default and the xlong msg_timeout
+	scanLong       = 90 * time.Minute // between max-req-timeout (1 h) and the over-long REQ delay (2 h)
+	overlongReqMs  = 7200000          // a REQ delay above the default --max-req-timeout
 	scanAll        = 2 * time.Hour
 )
 
